@@ -6,12 +6,19 @@ whenever simulated time has to pass for it: a reply travelling on the SimChannel
 (``CLOCK.advance``), ``time.sleep`` of a retry or polling loop (``CLOCK.sleep``), and zero-length
 waits, which are pure yield points.  The scheduler then resumes the parked thread with the smallest
 wake-up time; ties are decided by a PRNG seeded from the scenario (``sched_seed``), so one scenario
-is one interleaving, exactly repeatable.  Nothing is pre-empted between seams: what is explored is
-every order in which calls of different threads can overlap at I/O, which is where a client that
-keeps per-call state on shared objects (client, transport, wrapped method, class) goes wrong.
+is one interleaving, exactly repeatable.  That explores every order in which calls of different threads
+can overlap at I/O, which is where a client that keeps per-call state on shared objects (client,
+transport, wrapped method, class) across a call goes wrong.
+
+Pre-emption BETWEEN seams (optional, ``preempt_prefix``): the actor threads run under ``sys.settrace``;
+every *line* event inside a file of the EMITTED library (and only there: library and harness frames
+are not traced line by line) is a possible pre-emption point, taken with probability ``preempt_p``
+drawn from the same scenario PRNG.  This reaches state that is written and read back within one
+call, before anything is sent (two threads inside the same stub method).
 """
 import contextvars
 import random
+import sys
 import threading
 
 from .simclock import CLOCK
@@ -39,8 +46,11 @@ class _Actor:
 
 
 class ThreadSched:
-    def __init__(self, seed):
+    def __init__(self, seed, preempt_prefix=None, preempt_p=0.0):
         self.rng = random.Random(seed)
+        self.prefix = preempt_prefix
+        self.p = preempt_p
+        self.preemptions = 0
         self.actors = []
         self.main = threading.Event()
         self.switches = 0
@@ -72,14 +82,28 @@ class ThreadSched:
             return
         a.go.clear()
         try:
+            if self.prefix and self.p > 0:
+                sys.settrace(self._trace_call)
             a.fn()
         except _Abort:
             pass
         except BaseException as e:  # noqa  (re-raised in the scheduler thread)
             a.exc = e
         finally:
+            sys.settrace(None)
             a.state = "done"
             self.main.set()
+
+    def _trace_call(self, frame, event, arg):
+        if event == "call" and frame.f_code.co_filename.startswith(self.prefix):
+            return self._trace_line
+        return None
+
+    def _trace_line(self, frame, event, arg):
+        if event == "line" and self.rng.random() < self.p:
+            self.preemptions += 1
+            self.wait(0.0)          # give the baton back here, between two lines of emitted code
+        return self._trace_line
 
     # ------------------------------------------------------------------ scheduler side
     def run(self, fns, starts):
